@@ -2,7 +2,10 @@ module verif
 
 go 1.25.0
 
-require github.com/php-any/origami v0.0.0
+require (
+	github.com/php-any/origami v0.0.0
+	google.golang.org/protobuf v1.36.11
+)
 
 require (
 	filippo.io/edwards25519 v1.1.0 // indirect
@@ -10,7 +13,6 @@ require (
 	github.com/go-sql-driver/mysql v1.9.3 // indirect
 	github.com/gorilla/websocket v1.5.3 // indirect
 	github.com/ncruces/go-strftime v1.0.0 // indirect
-	google.golang.org/protobuf v1.36.11 // indirect
 )
 
 replace github.com/php-any/origami => /repo
